@@ -22,4 +22,33 @@ def lowest (flags : Option Nat) : Nat :=
 def shouldWrite (quiet : Bool) (verbosity : Nat) (flags : Option Nat) : Bool :=
   !quiet && decide (verbosity ≥ lowest flags)
 
+/-! ## The I/O facade: two outputs, each with its own settings
+
+`IO.write*` pass the call on to the standard output, `IO.error*` to the error output; each output
+gates with ITS OWN quiet flag and verbosity (the two can be configured individually through
+`io.output` / `io.error_output` or by handing pre-configured outputs to the constructor). -/
+
+/-- The settings of one output. -/
+structure OutCfg where
+  quiet : Bool
+  verbosity : Nat
+  deriving Repr, DecidableEq
+
+/-- The output an entry point of the facade writes to. -/
+inductive Chan | std | err
+  deriving Repr, DecidableEq
+
+/-- The eight writing entry points of `IO` and the output each writes to. -/
+def facadeChan : String → Option Chan
+  | "write" | "write_line" | "write_raw" | "write_line_raw" => some .std
+  | "error" | "error_line" | "error_raw" | "error_line_raw" => some .err
+  | _ => none
+
+/-- Which stream receives the text of a write through the facade:
+(standard stream, error stream). -/
+def facadeWrite (std err : OutCfg) (c : Chan) (flags : Option Nat) : Bool × Bool :=
+  match c with
+  | .std => (mayWrite std.quiet std.verbosity flags, false)
+  | .err => (false, mayWrite err.quiet err.verbosity flags)
+
 end Clikit.Gate
